@@ -131,17 +131,23 @@ def coq_eval(tag, preamble, exprs, timeout=900, shard=400):
     procs = []
     with Lock():
         for name in files:
-            while len([p for p in procs if p[1].poll() is None]) >= NCPU:
+            while len([q for q in procs if q[1].poll() is None]) >= NCPU:
                 time.sleep(0.05)
+            # output goes to a file: with a pipe, more than NCPU large outputs dead-lock (children block on a full pipe while the launcher
+            # waits for a child to exit)
+            fh = open(cases / (name + ".out"), "w")
             p = subprocess.Popen(["coqc"] + QFLAGS + ["-Q", "gen/cases", "Cases", f"gen/cases/{name}.v"], cwd=COQ,
-                                 stdout=subprocess.PIPE, stderr=subprocess.STDOUT, text=True)
-            procs.append((name, p))
+                                 stdout=fh, stderr=subprocess.STDOUT, text=True)
+            procs.append((name, p, fh))
         outs = []
-        for name, p in procs:
+        for name, p, fh in procs:
             try:
-                out, _ = p.communicate(timeout=timeout)
+                p.wait(timeout=timeout)
+                fh.close()
+                out = (cases / (name + ".out")).read_text()
             except subprocess.TimeoutExpired:
                 p.kill()
+                fh.close()
                 out = "[timeout]"
             outs.append((name, p.returncode, out))
     for name, rc, out in outs:
@@ -149,7 +155,7 @@ def coq_eval(tag, preamble, exprs, timeout=900, shard=400):
             raise RuntimeError(f"coq evaluation of {name} failed:\n{out[:3000]}")
         results += parse_coq_list(out)
     for name in files:
-        for suf in (".v", ".vo", ".vok", ".vos", ".glob"):
+        for suf in (".v", ".vo", ".vok", ".vos", ".glob", ".out"):
             try:
                 (cases / (name + suf)).unlink()
             except FileNotFoundError:
